@@ -8,12 +8,12 @@ package chk
 
 import (
 	"fmt"
-	"os"
 	"go/ast"
 	"go/constant"
 	"go/token"
 	"go/types"
 	"math/bits"
+	"os"
 	"sort"
 	"strings"
 
@@ -64,17 +64,17 @@ func sameTaint(a, b *taintV) bool {
 }
 
 type taintState struct {
-	c       *Ctx
-	val     map[ssa.Value]*taintV
-	field   map[*types.Var]*taintV
-	ret     map[*ssa.Function][]*taintV
-	param   map[*ssa.Parameter]*taintV
-	funcs   []*ssa.Function
-	inSet   map[*ssa.Function]bool
-	changed bool
-	nSrc    int
+	c           *Ctx
+	val         map[ssa.Value]*taintV
+	field       map[*types.Var]*taintV
+	ret         map[*ssa.Function][]*taintV
+	param       map[*ssa.Parameter]*taintV
+	funcs       []*ssa.Function
+	inSet       map[*ssa.Function]bool
+	changed     bool
+	nSrc        int
 	isHeaderVar map[*types.Var]bool
-	stores  map[*types.Var][]*ssa.Store // tainted stores into struct fields
+	stores      map[*types.Var][]*ssa.Store // tainted stores into struct fields
 }
 
 func readerMethodBits(recvType, name string, call *ssa.CallCommon) int {
